@@ -1,4 +1,5 @@
 import UtilModel.Codec.Props
+import UtilModel.Codec.Transfer
 open UtilModel UtilModel.Codec
 #print axioms UtilModel.accepts_sound
 #print axioms UtilModel.accepted_satisfies
@@ -22,3 +23,5 @@ open UtilModel UtilModel.Codec
 #print axioms read_words_only
 #print axioms seed_determinism
 #print axioms C19_obs
+#print axioms UtilModel.C19_accepted
+#print axioms UtilModel.acceptsH_sound
